@@ -415,6 +415,10 @@ def register_dispatch_contract(E):
         safe = E.refl['modules']['clastic.application']['consts'].get('_QUERY_SAFE', {'v': '/:'})['v']
         return VStr(Z.func('url_quote', Z.Str, Z.Str, Z.Str)(qs.z, z3.StringVal(safe)))
 
+    @E.spec('URLQUOTE')
+    def URLQUOTE(I, ctx, s):
+        return VStr(Z.func('url_quote', Z.Str, Z.Str, Z.Str)(s.z, z3.StringVal('/:')))
+
     @E.spec('RSTRIP_SLASH')
     def RSTRIP_SLASH(I, ctx, s):
         from pyvc import strs
@@ -471,8 +475,10 @@ def register_dispatch_contract(E):
             # a plain Response of the answering route is returned as is
             'implies(_i < %s and PLAIN_R(_seq[_i], request), result is XRET(_seq[_i]))' % NR,
             # C07: a redirect is issued exactly by a redirecting route, to the canonical path, query kept
+            # (from the statement: the path is escaped so that requesting the Location yields exactly the
+            # canonical decoded path; the query is appended only when there is one)
             'implies(_i < %s and REDIRECT_R(_seq[_i], request), LOCATION(result) == RSTRIP_SLASH(request.url_root) + '
-            'NORM(request.path, True) + "?" + QUOTED_QUERY(request))' % NR,
+            'URLQUOTE(NORM(request.path, True)) + ("?" + QUOTED_QUERY(request) if len(request.query_string) > 0 else ""))' % NR,
             # no route answered: the most recent non-breaking error, else 405 + Allow, else 404
             'implies(_i >= %s and len(%s) > 0, RENDERS(result, %s[-1]))' % (NR, EXC_END, EXC_END),
             'implies(_i >= %s and len(%s) == 0 and len(%s) > 0, STATUS(ERROR_OF(result)) == 405 and '
